@@ -13,7 +13,11 @@
 EXTENDS MerkleProof, Json
 CONSTANTS MaxOps,    \* number of Ref/Up/Prune operations in a behaviour (all requests together)
           MaxReq,    \* number of requests (cursor sessions, each ended by CreateProof) served by ONE prover
-          Free       \* TRUE: no depth-first discipline (any enabled operation)
+          Free,      \* TRUE: no depth-first discipline (any enabled operation)
+          TwoStep    \* TRUE: the source of the prover is the tree under an earlier proof Proof(tree, A) (a partial view with
+                     \* pruned branches, root of level 1); A ranges over the single positions and the pairs of incomparable
+                     \* positions of depth <= 2.  The second-step cursor then reaches positions outside A, next to A's pruned
+                     \* branches, the pruned branches themselves (pruned again) and positions above them.
 
 C(b, r) == [b |-> b, x |-> Ordinary, m |-> 0, r |-> r]
 A == <<1, 0, 1>>            B == <<0, 1, 1, 0, 1, 0, 0, 1>>     D == <<>>     E == <<1, 1, 1, 1, 1, 1, 1, 1, 0>>
@@ -32,13 +36,19 @@ Trees == <<
   << C(A, <<2, 3>>), C(B, <<4, 5>>), C(B, <<5, 4>>), C(D, <<>>), C(F, <<>>) >>  \* 11 mirrored children (not equal)
 >>
 
-VARIABLES s, nxt, hist, exph, cur, open, nops, done
-vars == <<s, nxt, hist, exph, cur, open, nops, done>>
+VARIABLES s, nxt, hist, exph, cur, open, nops, done, first
+vars == <<s, nxt, hist, exph, cur, open, nops, done, first>>
+\* first: <<index of the original tree, prune set A of the first proof>> (A = {} and the tree itself is the source unless TwoStep)
+RECURSIVE PathsBelow(_, _, _, _)
+PathsBelow(T, j, p, d) == IF d = 0 THEN {} ELSE UNION {{Append(p, k)} \cup PathsBelow(T, T[j].r[k], Append(p, k), d - 1) : k \in 1..Len(T[j].r)}
+FirstSets(T) == LET ps == PathsBelow(T, 1, <<>>, 2) IN
+                {{p} : p \in ps} \cup {{pp[1], pp[2]} : pp \in {x \in ps \X ps : x[1] # x[2] /\ ~PathPrefix(x[1], x[2]) /\ ~PathPrefix(x[2], x[1])}}
+Source(t, fs) == IF fs = {} THEN Trees[t] ELSE WithMasks(Body(Proof(Trees[t], 1, fs)))
 \* s: cursor state of the open session; nxt: for every prefix of its path (index Len+1) the smallest reference position
 \* still allowed below it; hist: the script (events as the harness replays and records them); exph: for every Create the
 \* hash of the proof the specification requires; cur: id of the open session; nops: Ref/Up/Prune operations so far
 Ev(k, i) == [k |-> k, c |-> cur, i |-> i]
-Init == /\ \E t \in 1..Len(Trees) : s = CInit(Trees[t], 1)
+Init == /\ \E t \in 1..Len(Trees) : \E fs \in (IF TwoStep THEN FirstSets(Trees[t]) ELSE {{}}) : first = <<t, fs>> /\ s = CInit(Source(t, fs), 1)
         /\ nxt = <<1>> /\ cur = 1 /\ hist = << [k |-> "Cursor", c |-> 1, i |-> 0] >> /\ exph = <<>>
         /\ open = TRUE /\ nops = 0 /\ done = FALSE
 DoRef(i) == /\ RefEnabled(s, i) /\ (Free \/ i >= nxt[Len(nxt)])
@@ -52,22 +62,26 @@ DoPrune == /\ (Free \/ s.path \notin s.ps)
            /\ s' = Prune(s) /\ nxt' = nxt
            /\ hist' = Append(hist, Ev("Prune", 0))
 Op == /\ open /\ nops < MaxOps /\ ((\E i \in 1..4 : DoRef(i)) \/ DoUp \/ DoPrune)
-      /\ nops' = nops + 1 /\ UNCHANGED <<exph, cur, open, done>>
+      /\ nops' = nops + 1 /\ UNCHANGED <<exph, cur, open, done, first>>
 \* CreateProof on the open session: the proof is Proof(T, R, prune set of THIS session)
 Create == /\ open /\ open' = FALSE
           /\ hist' = Append(hist, Ev("Create", 0))
           /\ exph' = Append(exph, BytesToHex(ReprHash(InfoTable(CreateProof(s))[1])))
-          /\ UNCHANGED <<s, nxt, cur, nops, done>>
+          /\ UNCHANGED <<s, nxt, cur, nops, done, first>>
 \* the same prover serves another request: a new cursor session starts with an empty prune set
 NewCursor == /\ ~open /\ cur < MaxReq /\ open' = TRUE /\ cur' = cur + 1
              /\ s' = CInit(s.T, 1) /\ nxt' = <<1>>
              /\ hist' = Append(hist, [k |-> "Cursor", c |-> cur + 1, i |-> 0])
-             /\ UNCHANGED <<exph, nops, done>>
-Finish == /\ ~open /\ done' = TRUE /\ UNCHANGED <<s, nxt, hist, exph, cur, open, nops>>
+             /\ UNCHANGED <<exph, nops, done, first>>
+Finish == /\ ~open /\ done' = TRUE /\ UNCHANGED <<s, nxt, hist, exph, cur, open, nops, first>>
 Next == ~done /\ (Op \/ Create \/ NewCursor \/ Finish)
 Spec == Init /\ [][Next]_vars
 
 TableJson(T) == [i \in 1..Len(T) |-> [b |-> BitsToStr(T[i].b), x |-> T[i].x, m |-> T[i].m, r |-> [j \in 1..Len(T[i].r) |-> T[i].r[j] - 1]]]
-Vector == [t |-> "walk", cells |-> TableJson(s.T), roots |-> <<0>>, script |-> hist, exphash |-> exph, reqs |-> cur]
+Ch == [magic |-> "generic", idx |-> FALSE, crc |-> FALSE, cache |-> FALSE, size |-> 1, ob |-> 2, hashes |-> FALSE]
+Vector == IF first[2] = {} THEN [t |-> "walk", cells |-> TableJson(s.T), roots |-> <<0>>, script |-> hist, exphash |-> exph, reqs |-> cur]
+          \* two-step: the source is handed over as the first proof's bag (written by the specification); orig = the level-0 tree
+          ELSE [t |-> "walk", cells |-> TableJson(s.T), roots |-> <<0>>, script |-> hist, exphash |-> exph, reqs |-> cur,
+                orig |-> TableJson(Trees[first[1]]), srcboc |-> BytesToHex(Write(Proof(Trees[first[1]], 1, first[2]), <<1>>, Ch))]
 Emit == done => PrintT(<<"VEC", ToJson(Vector)>>)
 =============================================================================
